@@ -5,14 +5,13 @@ set -e
 cd "$(dirname "$0")"
 export GOFLAGS=-mod=mod GOPROXY=off GOSUMDB=off GOTOOLCHAIN=local CGO_ENABLED=1
 REPO="${VERIF_REPO:-/repo}"
-OUT="${VERIF_BUILD:-/verif/build}"
+TARGET="${1:-vcheck}"
+OUT="${VERIF_BUILD:-/verif/build}/$TARGET"
 mkdir -p "$OUT" bin
 MODFILE=go.mod
 if [ "$REPO" != "/repo" ]; then
   sed "s#=> /repo#=> $REPO#" go.mod > "$OUT/alt.mod"; cp go.sum "$OUT/alt.sum"; MODFILE="$OUT/alt.mod"
 fi
-if [ ! -x bin/genprep ] || [ cmd/genprep/main.go -nt bin/genprep ]; then
-  go build -modfile="$MODFILE" -o bin/genprep ./cmd/genprep
-fi
-bin/genprep "$REPO" "$OUT"
-go build -modfile="$MODFILE" -tags verif -overlay "$OUT/overlay.json" -ldflags=-checklinkname=0 -o "${VERIF_BIN:-bin/vcheck}" ./cmd/vcheck
+go build -modfile="$MODFILE" -o "$OUT/genprep" ./cmd/genprep
+"$OUT/genprep" "$REPO" "$OUT"
+go build -modfile="$MODFILE" -tags verif -overlay "$OUT/overlay.json" -ldflags=-checklinkname=0 -o "${VERIF_BIN:-bin/$TARGET}" ./cmd/$TARGET
